@@ -109,7 +109,13 @@ impl Filter for BasicFilter {
                 .lossy_into();
 
             // get relative frequency difference
-            let mut freq_diff = interval_local / interval_master;
+            // two measurements with the same event time span no interval: there is
+            // nothing to learn about the frequency from them (and 0/0 is NaN)
+            let mut freq_diff = if interval_master != 0.0 {
+                interval_local / interval_master
+            } else {
+                1.0
+            };
             if (freq_diff - 1.0).abs() > self.freq_confidence {
                 freq_diff = freq_diff.clamp(1.0 - self.freq_confidence, 1.0 + self.freq_confidence);
                 self.freq_confidence *= 2.0;
